@@ -305,6 +305,54 @@ def _mentions(tree, var):
     return var in vars_in(tree)
 
 
+def check_version_pointer_lifetime(ctx):
+    """A pointer copied from versions->current is only used while the DB
+    mutex is still held or after the version was referenced: the background
+    thread may install a new version and free the old one as soon as the
+    mutex is released."""
+    P = ctx.P
+    n = 0
+    for f in P.all_functions:
+        if f.file != DB:
+            continue
+        holders = []
+        for b, i, e in f.events():
+            src = e.get("rhs") if e["e"] == "asg" else (e.get("init") if e["e"] == "decl" else None)
+            if src is not None and key(src) == "db->versions->current":
+                v = key(e["lhs"]) if e["e"] == "asg" else e["n"]
+                if v.isidentifier():
+                    holders.append(v)
+        for v in sorted(set(holders)):
+            n += 1
+
+            def uses(e, v=v):
+                if e["e"] == "call" and not is_call(e, ("ldb_version_ref", "ldb_version_unref")):
+                    return any(_mentions(a, v) for a in e.get("a", []))
+                if e["e"] in ("mem", "deref"):
+                    return _mentions(e.get("b") or e.get("x"), v)
+                return False
+
+            def step(q, e, st, b, i, v=v):
+                if q == BAD:
+                    return q
+                held, ref = q
+                if e["e"] in ("asg", "decl") and key(e.get("rhs") if e["e"] == "asg" else e.get("init")) == "db->versions->current" and \
+                        (key(e["lhs"]) if e["e"] == "asg" else e["n"]) == v:
+                    return (True, False)
+                if is_call(e, "ldb_version_ref") and argkey(e, 0) == v:
+                    return (held, True)
+                if is_call(e, "ldb_mutex_unlock") and argkey(e, 0) == "&db->mutex":
+                    return (False, ref)
+                if is_call(e, "ldb_mutex_lock") and argkey(e, 0) == "&db->mutex":
+                    return (True, ref)
+                if uses(e) and not held and not ref:
+                    return BAD
+                return q
+            check_automaton(ctx, "T10-pinning", "version-pointer:%s:%s" % (f.name, v), f, (True, False), step, None,
+                            "`%s` (a copy of versions->current) is used only under the mutex or after ldb_version_ref" % v)
+    ctx.require(n >= 5, "copies of versions->current not found (%d)" % n)
+
+
 def check_open_gc_order(ctx):
     """The collector computes its delete list under the mutex and unlinks
     without it; at open that is safe only because no background work was
@@ -431,6 +479,7 @@ def check_allocator(ctx):
 
 
 def check(ctx):
+    check_version_pointer_lifetime(ctx)
     check_open_gc_order(ctx)
     from . import c14
     c14.check_level_loops(ctx)     # the live set covers every level
